@@ -412,7 +412,7 @@ func workerC17(args []string) int {
 								// bound arguments, different for every goroutine of the burst
 								args := make([]any, len(q.Args))
 								for i, a := range q.Args {
-									args[i] = a
+									args[i] = c17ArgForm(a, i+g)
 								}
 								rows, err = hd.db.Query(q.ArgText, args...)
 							} else {
@@ -1287,4 +1287,16 @@ func lockFreeSoon(path string) (bool, error) {
 		time.Sleep(10 * time.Millisecond)
 	}
 	return free, err
+}
+
+// c17ArgForm hands a string argument to database/sql in one of the forms callers use for it: as it is, as a
+// sql.NullString, or through a pointer. All three stand for the same string.
+func c17ArgForm(a string, k int) any {
+	switch k % 3 {
+	case 1:
+		return sql.NullString{String: a, Valid: true}
+	case 2:
+		return &a
+	}
+	return a
 }
